@@ -21,6 +21,7 @@ from harness.lib import common, cppbuild, emb
 from harness.corr import c06_gen as G
 from harness.corr import c06_int as I
 from harness.corr import c06_read as R
+from harness.corr import c06_deps as D
 
 # (multiline, comments); single-line with comments is NOT documented as re-readable: a `#`
 # comment swallows the rest of the line (it is still written and parsed, never alarmed on).
@@ -102,12 +103,15 @@ static void RunOne(Make make, Dump dump, int multiline, int comments, int base, 
        .WithDigitGrouping(grouping != 0);
   if (multiline) o = o.WithIndent("  ");
   std::string text = have_text ? text_override : ::emboss::WriteToString(v, o);
+  // the text is on stdout before the reader runs: a failed CHECK / sanitizer report in
+  // UpdateFromText still leaves it for the oracles
+  std::cout << " text=" << Hex(text) << std::flush;
   auto w = make(b2.get(), n);
   bool upd = ::emboss::UpdateFromText(w, text);
   std::string d1, d2;
   dump(v, "", &d1);
   dump(w, "", &d2);
-  std::cout << " upd=" << upd << " ok2=" << w.Ok() << " text=" << Hex(text) << " buf2="
+  std::cout << " upd=" << upd << " ok2=" << w.Ok() << " buf2="
             << Hex(std::string(reinterpret_cast<char *>(b2.get()), n)) << " d1=" << Hex(d1) << " d2=" << Hex(d2)
             << " same=" << (std::memcmp(b1.get(), bytes.data(), n) == 0) << "\n";
 }
@@ -434,7 +438,7 @@ def prepare_module(mod):
                 orders[t["name"]["name"]["text"]] = order_names(t["structure"])
             walk(t.get("subtype", []))
     walk(d["module"][0]["type"])
-    return {"text": text, "header": header, "orders": orders}, None
+    return {"text": text, "header": header, "orders": orders, "dep_table": D.module_table(d)}, None
 
 
 def tops_of(mod):
@@ -451,6 +455,68 @@ def option_sets(tier, r):
 
 
 run_many_long = I.run_many_long
+
+
+def first_failing(binary, lines):
+    """One line of `lines` that makes the driver fail when run alone-ish (halving)."""
+    cand = list(lines)
+    last = None
+    while len(cand) > 1:
+        mid = len(cand) // 2
+        a = cppbuild.run(binary, "\n".join(cand[:mid]) + "\n", timeout=900)
+        if a.kind != "ok":
+            cand, last = cand[:mid], a
+        else:
+            cand = cand[mid:]
+    if not cand:
+        return None, last
+    one = cppbuild.run(binary, cand[0] + "\n", timeout=900)
+    return cand[0], (one if one.kind != "ok" else last)
+
+
+def isolate_crashes(binary, lines, res):
+    """A driver run over `lines` ended abnormally (sanitizer report, failed EMBOSS_CHECK, crash).
+    The lines are re-run struct by struct: structs that run cleanly are judged as usual, for each
+    of the others the failing line is located.  Returns ([answer or None per line],
+    [(failing line, RunResult)])."""
+    groups = {}
+    for i, ln in enumerate(lines):
+        groups.setdefault(ln.split(" ")[0], []).append(i)
+    keys = list(groups)
+    answers, crashes = [None] * len(lines), []
+    results = run_many_long([(binary, "\n".join(lines[i] for i in groups[k]) + "\n") for k in keys], workers=4)
+    for k, r in zip(keys, results):
+        idx = groups[k]
+        if r.kind == "ok":
+            out = r.out.split("\n")[:-1]
+            if len(out) == len(idx):
+                for i, a in zip(idx, out):
+                    answers[i] = a
+                continue
+        bad, one = first_failing(binary, [lines[i] for i in idx])
+        crashes.append((bad, one if one is not None else r))
+    if not crashes:
+        crashes.append((None, res))
+    return answers, crashes
+
+
+def crash_text_order(one, dep_table, st):
+    """The driver prints WriteToString's text before it calls UpdateFromText: when the reader
+    dies, the emission-order clause can still be judged on what was written."""
+    import re
+    m = re.search(r"text=([0-9a-f]*)", one.out or "")
+    if not m:
+        return None, []
+    text = I.unhex(m.group(1))
+    problems = []
+    try:
+        parsed, _ = parse_text(text)
+    except ParseError:
+        return text, ["text does not parse"]
+    if st is not None and parsed[0] == "struct":
+        check_intended_order(st, [n for n, _ in parsed[1]], problems, st.name)
+    D.check_text(dep_table, D.find_struct(dep_table, st.name if st is not None else None), parsed, "", problems)
+    return text, problems
 
 
 def line_fields(ln):
@@ -543,6 +609,8 @@ def judge(prep, st, built, opt, line, stats, int_checks, tok_texts, wvals=None):
             compare_struct(tree, st.name, parsed, prep["orders"], "", problems, int_checks)
             if parsed[0] == "struct":
                 check_intended_order(st, [n for n, _ in parsed[1]], problems, st.name)
+            # the same clause judged from the parsed source of the module (every struct level)
+            D.check_text(prep["dep_table"], D.find_struct(prep["dep_table"], st.name), parsed, "", problems, stats)
             tok_texts.append(text)
         # read-only virtual fields are comments: present iff comments are on
         for n, node in built.tree:
@@ -617,23 +685,28 @@ def run_modules(chk, mods, buffers_per_struct, r, model_ok, tier, compiler="clan
         stats["modules"] = stats.get("modules", 0) + 1
         second.append([])
         if res.kind != "ok":
-            bad = None
-            for ln in lines:
-                one = cppbuild.run(run_items[mi][0], ln + "\n")
-                if one.kind != "ok":
-                    bad = (ln, one)
-                    break
-            rec = {"emb": prep["text"], "op": bad[0] if bad else None, "part": "TXT", "origin": origin,
-                   "observed": "%s: %s" % (res.kind, (bad[1].err if bad else res.err)[-2000:]),
-                   "expected": "no sanitizer report / failed CHECK in text output or input"}
-            rec.update(line_fields(bad[0] if bad else None))
-            chk.violation("input", rec)
-            continue
-        out = res.out.split("\n")[:-1]
-        if len(out) != len(lines):
-            raise common.InfraError("TXT driver answered %d lines for %d ops" % (len(out), len(lines)))
+            out, crashes = isolate_crashes(run_items[mi][0], lines, res)
+            for bad, one in crashes:
+                rec = {"emb": prep["text"], "op": bad, "part": "TXT", "origin": origin,
+                       "observed": ["%s: %s" % (one.kind, one.err[-2000:])],
+                       "expected": "no sanitizer report / failed CHECK in text output or input"}
+                rec.update(line_fields(bad))
+                if bad in lines:
+                    st_bad = meta[lines.index(bad)][0]
+                    rec["text"], order_problems = crash_text_order(one, prep["dep_table"], st_bad)
+                    rec["observed"] += order_problems
+                    rec["predicate_skip_locates_emitted"] = G.skip_locates_emitted(st_bad)
+                chk.violation("input", rec)
+            stats["cases_not_judged_after_crash"] = stats.get("cases_not_judged_after_crash", 0) + \
+                sum(1 for a in out if a is None)
+        else:
+            out = res.out.split("\n")[:-1]
+            if len(out) != len(lines):
+                raise common.InfraError("TXT driver answered %d lines for %d ops" % (len(out), len(lines)))
         reported = set()
         for ci, ((st, built, opt), ln, ans) in enumerate(zip(meta, lines, out)):
+            if ans is None:
+                continue
             chk.count()
             problems, parsed, kv = judge(prep, st, built, opt, ans, stats, int_checks, tok_texts,
                                          wvals if model_ok else None)
@@ -648,7 +721,7 @@ def run_modules(chk, mods, buffers_per_struct, r, model_ok, tier, compiler="clan
             if not problems:
                 continue
             report(chk, stats, reported, mod, origin, prep, st, built, opt, kv, problems, parsed, second[mi], ci, ln)
-        if len(chk.cov["samples"]) < 5 and out:
+        if len(chk.cov["samples"]) < 5 and out and out[0]:
             kv = dict(x.split("=", 1) for x in out[0].split(" ") if "=" in x)
             if "text" in kv:
                 chk.sample({"struct": meta[0][0].name, "options": meta[0][2], "buffer": lines[0].split(" ")[-1],
